@@ -16,7 +16,7 @@ RULE = ("TLC enumerates the CLI machine over all 2^5 combinations of --lazy, --j
         "compared; non-trivial = the row reaches the loader")
 
 GOOD_SRC = ["x = 1\ny = x\n", "def f(a):\n    return a\n", "é = \"中\"\nprint(é)\n"]
-BAD_SRC = ["x = (1 +\ny = 2\n", "def f(:\n    pass\n"]
+BAD_SRC = ["x = (1 +\ny = 2\n", "def f(:\n    pass\n", "def f():\n  return (\n", "f(1, 2\ng(3)\n", "x = 1\n§\ny = x\n"]
 
 
 def dsl_ok(nglob):
@@ -66,7 +66,12 @@ def run(tier):
             nglob = {"none": 0, "one": 1, "two": 2, "three": 3, "dup": 2, "noeq": 1}[g]
             scen = row["scen"]
             text = {"ok": dsl_ok, "rejected": dsl_rejected, "execfail": dsl_execfail, "syntaxerr": dsl_ok, "syntaxerr-execfail": dsl_execfail}[scen](nglob)
-            si = r.randrange(len(GOOD_SRC)) if not scen.startswith("syntaxerr") else len(GOOD_SRC) + r.randrange(len(BAD_SRC))
+            if not scen.startswith("syntaxerr"):
+                si = r.randrange(len(GOOD_SRC))
+            elif scen == "syntaxerr-execfail":
+                si = len(GOOD_SRC) + r.choice([0, 1, 4])      # sources whose root is still a module (the failing stanza must match)
+            else:
+                si = len(GOOD_SRC) + r.randrange(len(BAD_SRC))
             gvals = {"G%d" % i: r.choice(["v%d" % i, "", "é=中", "a b", "x=y"]) for i in range(nglob)}
             args = []
             if g == "dup":
